@@ -538,6 +538,10 @@ CHECKS["C16"]["thorough"]["tests"].append({"test": "TestC16BigSA", "checks": 2, 
 CHECKS["C16"]["rule"] += (" Plus TestC16BigSA: GSAP with 3 MiB and OSAP with a buffer above the 8 MiB default (8 MiB + 64 KiB) filled "
                           "completely and parsed to the end. The acceptance test puts every accepted parser to a short use (write, "
                           "parse with both flags, shrink).")
+CHECKS["C20"]["quick"]["tests"].append({"test": "TestC20Buf", "checks": 3000, "subchecks": 1})
+CHECKS["C20"]["thorough"]["tests"].append({"test": "TestC20Buf", "checks": 8000, "subchecks": 1})
+CHECKS["C20"]["rule"] += (" Plus TestC20Buf: histories on a bare ParserBuffer in which Init is called again on the used value with another "
+                          "(mostly smaller) geometry: BufferConfig() is the defaults-completed configuration given.")
 CHECKS["C01"]["quick"]["tests"].append({"test": "TestC01Far", "checks": 12, "subchecks": 1})
 CHECKS["C01"]["thorough"]["tests"].append({"test": "TestC01Far", "checks": 20, "subchecks": 1})
 CHECKS["C01"]["rule"] += (" Plus TestC01Far: OSAP over 2.1-2.6 MiB of bytes uniform over 256 values with 20-60 planted copies (more than "
